@@ -5,7 +5,7 @@
    parameter list of length param_count, total size below 2^32.  [stamp m] = m with the header/directory fields
    that nvm_serialize computes (section_count, string_pool_offset/length, checksum, section table) filled in. *)
 From Coq Require Import NArith ZArith List Bool.
-From NV Require Import Base.Bytes Nvm.Crc Nvm.Format Nvm.FormatProofs Driver.ExitStatus Driver.ExitStatusProofs gen.NvmConsts gen.RunnerFlags.
+From NV Require Import Base.Bytes Nvm.Crc Nvm.Format Nvm.FormatProofs Driver.ExitStatus Driver.ExitStatusProofs Nvm.Limits Nvm.LimitsProofs gen.NvmConsts gen.RunnerFlags gen.NvmLimits.
 Import ListNotations.
 Local Open Scope N_scope.
 
@@ -46,6 +46,24 @@ Theorem C10_build_nodup : forall flags entry ops, nodup_strings (m_strings (buil
 Proof. exact build_nodup. Qed.
 Print Assumptions C10_build_nodup.
 
+(* ---- declared limits ----
+   [limit_modules]: modules with limit-1, limit, limit+1 functions / distinct strings / imports for every limit the
+   sources declare on that axis (NVM_MAX_FUNCTIONS, MAX_FUNCTIONS, NVM_MAX_STRINGS, MAX_EXTERNS; regenerated from the
+   preprocessor output by tools/gen/gen_limits.py).  The loader enforces none of them (only NVM_MAX_SECTIONS, see
+   C12_load_rejects_section_count): every such module comes back.  tools/props/c10_limits.py builds the same modules
+   through the real API and, where a source program can reach the limit, through the real compiler. *)
+Theorem C10_declared_limits_roundtrip : forall m, In m limit_modules -> deserialize (serialize m) = Loaded (stamp m).
+Proof. exact declared_limits_roundtrip. Qed.
+Print Assumptions C10_declared_limits_roundtrip.
+
+(* the modules really have the announced numbers of entries *)
+Theorem C10_limit_modules_counts :
+  map (fun m => length (m_funcs m)) (map fn_module functions_boundaries) = map N.to_nat functions_boundaries /\
+  map (fun m => length (m_strings m)) (map str_module strings_boundaries) = map N.to_nat strings_boundaries /\
+  map (fun m => length (m_imports m)) (map imp_module imports_boundaries) = map N.to_nat imports_boundaries.
+Proof. exact limit_modules_counts. Qed.
+Print Assumptions C10_limit_modules_counts.
+
 (* ---- exit status and initialisers of the three local runners (--run, nano_vm file, wrapper executable) ----
    Both statements are proved in the form that matches the CURRENT source: the two booleans are regenerated from the
    clang AST of run_standalone() / write_wrapper_c() on every run (NV.gen.RunnerFlags); tools/props/c10.py reports which
@@ -67,6 +85,12 @@ Theorem C10_runners_disagree_iff : nano_vm_propagates_result = false ->
   forall v, (v mod 256 <> 0)%Z -> exit_status VirtRun (VmOk true v) <> exit_status NanoVmFile (VmOk true v).
 Proof. exact runners_disagree. Qed.
 Print Assumptions C10_runners_disagree_iff.
+
+(* with the daemon repaired as well (77ae0bf) all four runners agree on every outcome *)
+Theorem C10_runners_agree_all : nano_vm_propagates_result = true -> daemon_propagates_result = true ->
+  forall r1 r2 o, exit_status r1 o = exit_status r2 o.
+Proof. exact runners_agree_all. Qed.
+Print Assumptions C10_runners_agree_all.
 
 (* what holds whatever the flags are *)
 Theorem C10_runners_agree_partial :
